@@ -32,9 +32,11 @@ type emitRule struct {
 	Rx    string
 	Need  []guardAtom
 	Args  []string
-	Range string // when set, the emission must be inside a `range` whose pipeline mentions this
-	Min   int
-	Why   string
+	// Forbid lists fields no enclosing guard may mention (the emission must not depend on them)
+	Forbid []string
+	Range  string // when set, the emission must be inside a `range` whose pipeline mentions this
+	Min    int
+	Why    string
 }
 
 func atomStr(as []guardAtom) string {
@@ -132,6 +134,11 @@ func checkEmitRules(c *Ctx, rule string, ev *tmpl.Evaluator, table []emitRule) {
 				for _, a := range er.Need {
 					if !tmpl.GuardHas(oc.Guards, a.Field, a.Pol) {
 						missing = append(missing, atomStr([]guardAtom{a}))
+					}
+				}
+				for _, f := range er.Forbid {
+					if tmpl.GuardHas(oc.Guards, f, 0) {
+						missing = append(missing, "independence from ."+f)
 					}
 				}
 				if er.Range != "" && !rangeGuard(oc.Guards, er.Range) {
@@ -471,5 +478,67 @@ func checkConditionalDecls(c *Ctx, rule string, ev *tmpl.Evaluator, trees []stri
 	}
 	if n == 0 {
 		c.Unk(rule, "conditionally declared identifiers", "", "no use of a conditionally declared identifier was found in "+strings.Join(trees, ", ")+" (anchor)")
+	}
+}
+
+// checkMakeSizes: a make(T, n[, cap]) whose size is a non-constant difference a - b panics when
+// b > a; it must be dominated by a comparison of the two operands.
+func checkMakeSizes(c *Ctx, rule string, pk *packages.Package) int {
+	info := pk.TypesInfo
+	n := 0
+	for _, fd := range load.AllFuncs(pk) {
+		fd := fd
+		goan.WalkGuards(info, fd.Body, func(nd ast.Node, guards []goan.Lit, _ []ast.Stmt) {
+			ast.Inspect(nd, func(m ast.Node) bool {
+				call, ok := m.(*ast.CallExpr)
+				if !ok || !goan.IsBuiltinCall(info, call, "make") {
+					return true
+				}
+				for _, a := range call.Args[1:] {
+					be, ok := ast.Unparen(a).(*ast.BinaryExpr)
+					if !ok || be.Op != token.SUB {
+						continue
+					}
+					if tv, ok := info.Types[a]; ok && tv.Value != nil {
+						continue
+					}
+					n++
+					l, r := goan.ExprString(be.X), goan.ExprString(be.Y)
+					guarded := false
+					for _, g := range guards {
+						gs := goan.ExprString(g.E)
+						if strings.Contains(gs, l) && strings.Contains(gs, r) {
+							guarded = true
+						}
+					}
+					c.Check(guarded, rule, fmt.Sprintf("%s.%s › make size %s", pk.Name, load.FuncName(fd), goan.ExprString(a)), c.posOf(pk, call.Pos()), "dominated by a comparison of the operands",
+						fmt.Sprintf("make(…, %s) panics (len/cap out of range) whenever %s exceeds %s, and nothing on the way compares them", goan.ExprString(a), r, l))
+				}
+				return true
+			})
+		})
+	}
+	return n
+}
+
+// checkNoopDeletes: slices.Delete(s, i, i) removes the empty range [i, i): nothing.
+func checkNoopDeletes(c *Ctx, rule string, pk *packages.Package) {
+	info := pk.TypesInfo
+	for _, fd := range load.AllFuncs(pk) {
+		fd := fd
+		ast.Inspect(fd.Body, func(n ast.Node) bool {
+			call, ok := n.(*ast.CallExpr)
+			if !ok || len(call.Args) != 3 {
+				return true
+			}
+			fn := goan.Callee(info, call)
+			if fn == nil || goan.CalleeName(fn) != "slices.Delete" {
+				return true
+			}
+			same := goan.ExprString(call.Args[1]) == goan.ExprString(call.Args[2])
+			c.Check(!same, rule, fmt.Sprintf("%s.%s › %s", pk.Name, load.FuncName(fd), goan.ExprString(call)), c.posOf(pk, call.Pos()), "removes a non-empty range",
+				"slices.Delete(s, i, i) removes the empty range [i, i): the element that was meant to be dropped stays")
+			return true
+		})
 	}
 }
